@@ -337,7 +337,8 @@ def x1_x3(ctx):
         if not ie_ or not ic_ or ic_[-1] <= ie_[0]:
             continue
         r1.inst('copy-after-expansion:%s' % a_.key)
-        early_ = [z for x_ in st_[ie_[0]:ic_[-1]] for z in sx.walk_skip(x_, lambda q: q.get('k') == 'closure') if z.get('k') in ('continue', 'return', 'break')]
+        early_ = [z for x_ in st_[ie_[0]:ic_[-1]] for z in sx.walk_skip(x_, lambda q: q.get('k') == 'closure') if z.get('k') in ('continue', 'return', 'break')
+                  and not (z.get('k') == 'return' and isinstance(z.get('e'), dict) and (sx.is_call(z['e'], 'Err') or sq(z['e']).startswith('Err(')))]      # an error exit is `?` written out
         if early_:
             r1.fail('%s:%s:early-exit-before-copy' % (CRATE, a_.key), pp.where(early_[0].get('l') or a_.line),
                     '%s: the handler can leave (`%s`) after the expansion step and before the source text behind the usage (its trailing blanks) is copied: on that path — '
@@ -924,7 +925,8 @@ def x5_x7(ctx):
             if not any(z.get('k') == 'mcall' and z['m'] == 'push' and sx.is_path(z['recv'], 'skip_nodes') for z in sx.walk(lp_['body'])):
                 continue
             r7.inst('chain-loop:%s' % a_.key)
-            early_ = [z for z in sx.walk_skip(lp_['body'], lambda q: q.get('k') in ('closure', 'for', 'while', 'loop')) if z.get('k') in ('break', 'return')]
+            early_ = [z for z in sx.walk_skip(lp_['body'], lambda q: q.get('k') in ('closure', 'for', 'while', 'loop')) if z.get('k') in ('break', 'return')
+                      and not (z.get('k') == 'return' and isinstance(z.get('e'), dict) and sq(z['e']).startswith('Err('))]
             if early_:
                 r7.fail('%s:%s:chain-loop-left-early' % (CRATE, a_.key), pp.where(early_[0].get('l') or a_.line),
                         '%s: the loop over the `elsif branches is left early (`%s`): the bodies of the later branches are never put on the skip list, so they are emitted together '
